@@ -410,9 +410,9 @@ func (r *refEval) evalForm(f []sx, e *env) (sx, *exit) {
 	switch head {
 	case "quote":
 		return rest[0], nil
-	case "progn", "when", "unless":
+	case "progn", "when", "unless", "with-standard-io-syntax":
 		forms := rest
-		if head != "progn" {
+		if head == "when" || head == "unless" {
 			c, ex := r.eval(rest[0], e)
 			if ex != nil {
 				return nil, ex
